@@ -100,6 +100,8 @@ async fn pull_check<C: AsyncSvsClient>(case: &Case, client: &C, payload: &Payloa
             // between them fills
             let nap_us = pick(&[0u64, 0, 200, 3_000, 30_000]);
             let nap_after = range(1, 4) as usize;
+            // ... and once in a while it stops for seconds, once
+            let long_stall: Option<(usize, u64)> = if simkernel::choose(8) == 0 { Some((range(1, 6) as usize, pick(&[3u64, 6]))) } else { None };
             let r = repe::value_stream::pull_consume_async(client, "res", move |mut rd: Box<dyn Read>| {
                 let mut v = Vec::new();
                 let mut buf = [0u8; 37];
@@ -111,6 +113,12 @@ async fn pull_check<C: AsyncSvsClient>(case: &Case, client: &C, payload: &Payloa
                     }
                     v.extend_from_slice(&buf[..n]);
                     reads += 1;
+                    if let Some((at, secs)) = long_stall
+                        && reads == at
+                    {
+                        simkernel::count("probe.decoder_stalled_for_seconds");
+                        simkernel::thread::sleep(Duration::from_secs(secs));
+                    }
                     if nap_us > 0 && reads % nap_after == 0 {
                         simkernel::count("probe.slow_decoder_nap");
                         simkernel::thread::sleep(Duration::from_micros(nap_us));
@@ -368,11 +376,31 @@ struct Snapshot {
     dest: Option<Vec<u8>>,
 }
 
+/// A digest sink that takes its time on every write.
+struct SlowDigest {
+    nap_us: u64,
+}
+impl io::Write for SlowDigest {
+    fn write(&mut self, buf: &[u8]) -> io::Result<usize> {
+        if self.nap_us > 0 {
+            simkernel::count("probe.slow_digest_write");
+            simkernel::thread::sleep(Duration::from_micros(self.nap_us));
+        }
+        Ok(buf.len())
+    }
+    fn flush(&mut self) -> io::Result<()> {
+        Ok(())
+    }
+}
+
 async fn file_pull<C: AsyncSvsClient>(client: &C, api: FileApi, dest: &Path, trailer: usize, reject: bool) -> Result<(), RepeError> {
     match api {
         FileApi::Plain => repe::value_stream::pull_to_file_async(client, "res", dest).await.map(|_| ()),
         FileApi::Verified => {
-            repe::value_stream::pull_to_file_verified_async(client, "res", dest, Vec::<u8>::new(), move |_digest: Vec<u8>| {
+            // the digest may be slow (it runs on the decoder's thread): the queue between the
+            // pull loop and the decoder then fills
+            let nap_us = pick(&[0u64, 0, 2_000, 40_000]);
+            repe::value_stream::pull_to_file_verified_async(client, "res", dest, SlowDigest { nap_us }, move |_digest: SlowDigest| {
                 if reject {
                     simkernel::count("fault.verifier_rejects");
                     return Err(RepeError::Io(io::Error::other("digest mismatch")));
@@ -512,8 +540,17 @@ fn c10_async_file(case: &Case) {
                 *temp_left2.lock().unwrap() = true;
             }
         }
-        // let an abandoned decoder thread notice and clean up
+        // let an abandoned decoder thread notice and clean up (it may be in the middle of a
+        // slow digest write: wait for the temp file to go, within reason)
         sleep_ms(20).await;
+        if res.is_none() {
+            for _ in 0..2_000 {
+                if !dest2.with_extension("bin.svspart").exists() {
+                    break;
+                }
+                sleep_ms(1).await;
+            }
+        }
         stop.store(true, std::sync::atomic::Ordering::SeqCst);
         let _ = monitor.await;
         *outcome2.lock().unwrap() = Some(res.map(|r| r.map_err(|e| e.to_string())));
